@@ -1,6 +1,7 @@
 import OasisModel.Proto
 import OasisModel.Mkvs.Proof
 import OasisModel.Mkvs.Chunk
+import OasisModel.Mkvs.ProofIter
 /-
 Driver for C04/C12 (mode `proof`, executable `om_proof`), used by harness/cmd/proofdrv.
 One operation per line; the model prints its own answer and the harness compares it with what the
@@ -16,6 +17,7 @@ Encoding: bytes in hex, `-` = empty byte string; entry lists `e,e,...` with `~` 
   verify V ROOT UNTRUSTED ENTRIES  -> `ok WRITELOG` | `err CLASS`      (ProofVerifier.VerifyProofToWriteLog)
   sub                              -> `ok` | `NOTSUB`                  (last accepted tree ⊑ model tree)
   get K                            -> `val V` | `absent` | `unresolved` (lookup on the last accepted tree)
+  iter K N                         -> `items K:V,...` | `unresolved`    (Seek K + Next, at most N items, on the last accepted tree)
   proofget V SIB K                 -> `proof UNTRUSTED ENTRIES`        (SyncGet positioned at the root)
   proofiter V PREFETCH K           -> `proof UNTRUSTED ENTRIES`        (SyncIterate)
   proofprefixes V LIMIT P1,P2,...  -> `proof UNTRUSTED ENTRIES`        (SyncGetPrefixes)
@@ -98,6 +100,13 @@ def step (st : St) (line : String) : St × String :=
     match parseHex k, st.last with
     | some k, some t => (st, showAns (t.getAux (sha []) k 0))
     | _, _ => (st, "ERR parse")
+  | ["iter", k, n] =>
+    match parseHex k, n.toNat?, st.last with
+    | some k, some n, some t =>
+      match ptIterate (sha []) t k n with
+      | some items => (st, "items " ++ showKVs items)
+      | none => (st, "unresolved")
+    | _, _, _ => (st, "ERR parse")
   | ["proofget", v, sib, k] =>
     match v.toNat?, sib.toNat?, parseHex k with
     | some v, some sib, some k =>
